@@ -265,7 +265,7 @@ def pages_image(w, pages, order_mul):
     return R1.Image(w, segs, data), 2 * K + 1
 
 
-def work_pages(task):
+def work_pages(task, prop=None, matchers=None):
     global DEVICE
     from fjv.enginecheck import write_image, compare
     from fjv.engines import make_device_class, run_engine
@@ -277,7 +277,7 @@ def work_pages(task):
     image, nops = pages_image(w, pages, mul)
     r = R1.run(image, [], nops + 10)
     counters = {'images': 1, 'cases': 1, 'engine_runs': 0, 'skipped_horizon': 0, 'nontrivial': 1, 'capped_reads': 0}
-    sieve = Sieve(PROP, MATCHERS)
+    sieve = Sieve(prop or PROP, MATCHERS if matchers is None else matchers)
     assert r.cause == R1.LOOPING and r.ops == nops, (r.cause, r.ops, nops)
     path = write_image(image, f'pages-{w}-{name}-{mul}.fjm')
     probe = sorted(r.mem)
